@@ -56,6 +56,12 @@ def run(tier):
                     e["a"] in ("append", "sync", "create") and (e.get("res", "ok") != "ok" or e.get("ok") is False) for e in evs):
                 nontrivial += 1
         os.remove(tr)
+    # entries of many MiB; two lives of the actor on one store with a stray file in the directory
+    tr = os.path.join(wd, "special.ndjson")
+    vlib.vh(["wal", "special", "--out", tr])
+    runs, bad = vlib.validate_runs(rep, "WalTrace", "WalTrace", tr, wd, "special", describe=describe)
+    nontrivial += len(runs)
+    os.remove(tr)
     rep.cov["distinct_nontrivial"] = nontrivial
     rep.cov["rule"] = ("a case is one run of the real always-fsync actor (bursts of concurrent write_durable calls, file "
                        "capacity, batch limit, scripted faults); non-trivial = at least one injected fault took effect and "
